@@ -641,7 +641,7 @@ fn spawn_child(cfg: &BatchCfg, shard: u64, of: u64, only: Option<&Path>, out: &P
     let exe = std::env::current_exe().map_err(|e| e.to_string())?;
     let mut c = std::process::Command::new(exe);
     c.arg("w1child").arg(cfg.prop.id());
-    c.args(["--seed", &cfg.verif_seed.to_string(), "--runs", &cfg.runs.to_string(), "--sys-variants", &cfg.sys_variants.to_string()]);
+    c.args(["--tier", &cfg.tier, "--seed", &cfg.verif_seed.to_string(), "--runs", &cfg.runs.to_string(), "--sys-variants", &cfg.sys_variants.to_string()]);
     c.args(["--shard", &shard.to_string(), "--of", &of.to_string(), "--out", out.to_str().unwrap(), "--runs-per-fork", &cfg.runs_per_fork.to_string()]);
     if let Some(o) = only {
         c.args(["--only", o.to_str().unwrap()]);
@@ -650,6 +650,27 @@ fn spawn_child(cfg: &BatchCfg, shard: u64, of: u64, only: Option<&Path>, out: &P
     c.stdout(std::process::Stdio::null());
     // stderr is inherited (the check driver redirects it to a log file)
     c.spawn().map_err(|e| e.to_string())
+}
+
+/// Execute one group of runs (the unit of forking) again exactly the way the batch did: a freshly
+/// spawned shard process regenerates the runs from the seed and executes them in one forked child.
+/// Used for violations that depend on where the allocator places things and therefore do not
+/// reproduce from an explicit op list, whose replay allocates differently (replay layer `L1-group`).
+pub fn rerun_group(cfg: &BatchCfg, gid: u64) -> Result<Vec<Found>, String> {
+    let dir = crate::env::scratch_root().join(format!("w1-regroup-{}", std::process::id()));
+    std::fs::create_dir_all(&dir).map_err(|e| e.to_string())?;
+    let only = dir.join("only");
+    std::fs::write(&only, format!("{}\n", gid)).map_err(|e| e.to_string())?;
+    let out = dir.join("shard.out");
+    let status = dir.join("status");
+    let mut c = spawn_child(cfg, 0, 1, Some(&only), &out, &status)?;
+    let st = c.wait().map_err(|e| e.to_string())?;
+    if !st.success() {
+        return Err(format!("group process ended abnormally: {:?}", st));
+    }
+    let d = read_shard(&out)?;
+    let _ = std::fs::remove_dir_all(&dir);
+    Ok(d.found)
 }
 
 /// Parent: shard the batch over single-threaded child processes, merge their outputs in index order.
